@@ -39,7 +39,8 @@ def main():
         return 2
     ctx = common.Context(prop, args.tier, seed)
     try:
-        aud = common.audit(mod.THEOREMS, schema_groups=getattr(mod, "SCHEMA_TIE", ()), sql_modules=getattr(mod, "SQL_TIE", ()))
+        aud = common.audit(mod.THEOREMS, schema_groups=getattr(mod, "SCHEMA_TIE", ()), sql_modules=getattr(mod, "SQL_TIE", ()),
+                           tier=args.tier)
         if args.replay:
             with open(args.replay) as fh:
                 doc = json.load(fh)
